@@ -59,7 +59,8 @@ CONTRACTS = {
         'assumed': 'group call contract (C11): f(u, None) / f(None, v) yield the identifiers of row u / column v, inside the formula',
         'params': {},
         'returns': 'iseq',
-        'requires': ['len(index) == 2', '(index[0] is None) != (index[1] is None)',
+        'supports': ['len(index) == 2', '(index[0] is None) != (index[1] is None)'],
+        'requires': [
                      'implies(index[1] is None, 1 <= index[0] and index[0] <= self.n)',
                      'implies(index[0] is None, 1 <= index[1] and index[1] <= self.m)'],
         'ensures': ['implies(index[1] is None, result == rowlits(self.gid, index[0]))',
